@@ -55,6 +55,43 @@ def orders_for(r, units, tier):
     return out, False
 
 
+def gap_of(n_units):
+    """the slot width wf_run.run_prepared uses for an order of `n_units` units"""
+    return 0.9 * wf_run.step_timeout() / (n_units + 1)
+
+
+def expand_extra(extra, units, orders):
+    """the extra passes of a case.  `order`: None, "reversed", or "all" (one pass per realised unit order);
+    `lookup_gaps`: the discovery call takes that many slot widths (so that it ends between two slots — every call
+    and the whole pass stay below the step time-out) — written as concrete `lookup_latency` seconds"""
+    out = []
+    for x in extra:
+        x = dict(x)
+        if "lookup_gaps" in x:
+            x["lookup_latency"] = round(x.pop("lookup_gaps") * gap_of(len(units)), 4)
+        if x.get("order") == "all":
+            out += [dict(x, order=list(o)) for o in orders if not isinstance(o, dict)]
+        else:
+            out.append(dict(x, order=(list(reversed(units)) if x.get("order") == "reversed" else None)))
+    return out
+
+
+def retarget(o, units, cap=24):
+    """passes equivalent to `o` for a (smaller) case whose units are `units`: a pass that names a unit order which is
+    not an order of these units is tried under every order of them, the discovery keeping its length in slot widths"""
+    if not o:
+        return []
+    if isinstance(o, dict):
+        if isinstance(o.get("order"), list) and set(o["order"]) != set(units):
+            lat = o.get("lookup_latency")
+            if lat is not None:
+                lat = round(lat / gap_of(len(o["order"])) * gap_of(len(units)), 4)
+            return [dict(o, order=list(p), **({"lookup_latency": lat} if lat is not None else {}))
+                    for p in itertools.islice(itertools.permutations(units), cap)]
+        return [o]
+    return [o] if set(o) == set(units) else []
+
+
 def do_run(prep, o=None):
     """one pass; `o` is None (sequential), a completion order of the units, {"lookup_latency": seconds, "order": …}
     (the kind-discovery call takes that long) or {"uniform_latency": seconds} (every GET takes that long).  Plural discovery is made cold before every pass."""
@@ -135,8 +172,7 @@ def check_case(ck, drv, r, case, tier, tag, prep=None, base=None, extra=()):
         return
     units = base["units"]
     orders, full = orders_for(r, units, tier)
-    orders = list(orders) + [dict(x, order=(list(reversed(units)) if x.get("order") == "reversed" else None))
-                             for x in extra]
+    orders = list(orders) + expand_extra(extra, units, orders)
     runs = [(None, base)] + [(o, do_run(prep, o)) for o in orders]
     ck.evaluated(len(runs))
     ck.count(f"units:{min(len(units), 9)}")
@@ -167,14 +203,13 @@ def check_case(ck, drv, r, case, tier, tag, prep=None, base=None, extra=()):
             if p.problems:
                 return False
             b = do_run(p)
-            os_ = [x for x in ([o] if o else []) if isinstance(x, dict) or set(x) == set(b["units"])] \
-                or orders_for(rng("shrink"), b["units"], "quick")[0]
+            os_ = retarget(o, b["units"]) or orders_for(rng("shrink"), b["units"], "quick")[0]
             return bool(order_oracle(c, [(None, b)] + [(x, do_run(p, x)) for x in os_], limit, p))
         small = c01.shrink(case, fails) if len(ck.violations) < 3 else case
         if small is not case:       # name an order of the *small* case under which it fails
             try:
                 p2, b2 = prepare_and_base(small)
-                os2 = ([o] if o and (isinstance(o, dict) or set(o) == set(b2["units"])) else []) + orders_for(rng("shrink"), b2["units"], "thorough")[0][:120]
+                os2 = retarget(o, b2["units"]) + orders_for(rng("shrink"), b2["units"], "thorough")[0][:120]
                 bad2 = order_oracle(small, [(None, b2)] + [(x, do_run(p2, x)) for x in os2], limit, p2)
                 if bad2:
                     o, what = bad2[0]
@@ -252,7 +287,7 @@ def run(tier: str) -> int:
     for f in sorted((VERIF / "corpus" / "C02").glob("*.json")):
         data = json.load(open(f))
         for case in data.get("cases", [data.get("case")] if data.get("case") else []):
-            check_case(ck, drv, r, case, "thorough", "corpus")
+            check_case(ck, drv, r, case, "thorough", "corpus", extra=data.get("extra") or ())
     n = 100 if tier == "quick" else 450
     try:
         for i in range(n):
@@ -276,6 +311,12 @@ def run(tier: str) -> int:
         rg = rng("c02-groups")
         for i in range(20 if tier == "quick" else 200):
             check_case(ck, drv, rg, gen_wf.gen_group_collision_case(rg), tier, "same-kind-word-two-groups")
+        # sixth round: one kind word in several API groups, every plural to be discovered; the discoveries overlap or
+        # not depending on the unit order and on how long a discovery takes (0.5 / 1.2 slot widths)
+        rd = rng("c02-group-discovery")
+        disc = [{"lookup_gaps": 1.2, "order": "all"}, {"lookup_gaps": 0.5, "order": "all"}]
+        for i in range(15 if tier == "quick" else 150):
+            check_case(ck, drv, rd, gen_wf.gen_group_discovery_case(rd), tier, "same-kind-word-groups-discovered", extra=disc)
         # third round: `steps` used as a whole next to a declared dependency; wide fan-outs whose every read is slow
         # (but below the step time-out); consumers applying list/map functions to one dependency value
         rc_ = rng("c02-cluster-scoped")
@@ -345,7 +386,7 @@ def replay(path: str) -> int:
     for v in items:
         case, order = v["case"]["case"], v["case"].get("order")
         prep, base = prepare_and_base(case)
-        orders = [order] if order and set(order) == set(base["units"]) else []
+        orders = retarget(order, base["units"], cap=120)
         orders += orders_for(rng("replay"), base["units"], "thorough")[0][:120]
         runs = [(None, base)] + [(o, do_run(prep, o)) for o in orders]
         bad = order_oracle(case, runs, limit, prep)
